@@ -68,6 +68,13 @@ fn exec(sc: &Scenario) -> Report {
             let f0 = term.flushes();
             let res = match op.k.as_str() {
                 "tick" => call(|| pb.tick()),
+                // (update() is a direct ordinary request like tick(): not one of the calls that go
+                // through the position bucket)
+                "update" => call(|| pb.update(|_| {})),
+                "finish_clear" => {
+                    pos = 1_000_000; // finish_and_clear() moves the position to the length
+                    call(|| pb.finish_and_clear())
+                }
                 "set_message" => {
                     msg = format!("m{i}");
                     let m = msg.clone();
@@ -113,10 +120,10 @@ fn exec(sc: &Scenario) -> Report {
                 break;
             }
             let painted = term.flushes() > f0;
-            let forced = matches!(op.k.as_str(), "println" | "force_draw" | "mp_println" | "mp_clear" | "sib_finish" | "sib_drop");
+            let forced = matches!(op.k.as_str(), "println" | "force_draw" | "mp_println" | "mp_clear" | "sib_finish" | "sib_drop" | "finish_clear");
             // (finishing / dropping a sibling and clearing paint forced frames, or none at all)
-            let may_not_paint = matches!(op.k.as_str(), "mp_clear" | "sib_finish" | "sib_drop");
-            let direct = matches!(op.k.as_str(), "tick" | "set_message" | "reset");
+            let may_not_paint = matches!(op.k.as_str(), "mp_clear" | "sib_finish" | "sib_drop" | "finish_clear");
+            let direct = matches!(op.k.as_str(), "tick" | "set_message" | "reset" | "update");
             let positional = matches!(op.k.as_str(), "inc" | "set_position");
             if forced && !painted && !may_not_paint && !(op.k == "mp_println" && mp.is_none()) {
                 r.violate("C05.forced_paint", format!("{at}: a forced request painted nothing"));
@@ -295,7 +302,7 @@ impl Check for C05 {
         "C05"
     }
     fn rule_text(&self) -> String {
-        "50..400 requests (tick, set_message, reset = direct ordinary; inc/set_position = through the position bucket; println/force_draw/mp.println/mp.clear and finishing + dropping sibling bars above the bar under test = forced, excluded from the law) on a target with refresh rate R uniform in 1..=255 or without limiter, standalone or as a MultiProgress target; arrival gaps from a mixture: 0, 1 ns, I±{0,1 ns,1 µs}, k*I±..., 1 ms±1 ns, sub-interval uniform, seconds, hours (I = 1e9/R ns). Laws checked on the recorded paint timestamps: (1) every window of ordinary frames satisfies count <= 20 + R*T + 1 (integer arithmetic), (2) a direct ordinary request arriving >= ceil(1e9/R) ns after the last painted frame is painted, (3) after every position update the last painted frame is younger than ceil(1e9/R) ns + 1 ms, (4) on an unlimited target admitted position updates obey burst 10 / 1 per ms and a position update >= 1 ms after the last admitted one is admitted, (5) every painted frame shows the latest position and message. Non-trivial: >= 3 frames caused by ordinary requests. Distinct = distinct scenario hash.".into()
+        "50..400 requests (tick, set_message, update, reset (also right after finish_and_clear) = direct ordinary; inc/set_position = through the position bucket; println/force_draw/mp.println/mp.clear and finishing + dropping sibling bars above the bar under test = forced, excluded from the law) on a target with refresh rate R uniform in 1..=255 or without limiter, standalone or as a MultiProgress target; arrival gaps from a mixture: 0, 1 ns, I±{0,1 ns,1 µs}, k*I±..., 1 ms±1 ns, sub-interval uniform, seconds, hours (I = 1e9/R ns). Laws checked on the recorded paint timestamps: (1) every window of ordinary frames satisfies count <= 20 + R*T + 1 (integer arithmetic), (2) a direct ordinary request arriving >= ceil(1e9/R) ns after the last painted frame is painted, (3) after every position update the last painted frame is younger than ceil(1e9/R) ns + 1 ms, (4) on an unlimited target admitted position updates obey burst 10 / 1 per ms and a position update >= 1 ms after the last admitted one is admitted, (5) every painted frame shows the latest position and message. Non-trivial: >= 3 frames caused by ordinary requests. Distinct = distinct scenario hash.".into()
     }
     fn assumptions(&self) -> Vec<String> {
         vec!["time is integral nanoseconds on the virtual clock; no steady ticker is installed".into()]
@@ -354,8 +361,19 @@ impl Check for C05 {
             // burst - idle - burst: empty the bucket, idle for about k intervals (k around the
             // burst size), burst again
             for _ in 0..rng.range(1, 3) {
+                let cycles = rng.chance(1, 6);
                 for _ in 0..rng.range(18, 45) {
-                    ops.push(if rng.chance(4, 5) { Op::new("tick") } else { Op::new("inc").n(1) });
+                    if cycles {
+                        // finish-and-clear / reset cycles
+                        ops.push(Op::new("finish_clear"));
+                        ops.push(Op::new("reset"));
+                        continue;
+                    }
+                    ops.push(match rng.below(10) {
+                        0 | 1 => Op::new("inc").n(1),
+                        2 => Op::new("update"),
+                        _ => Op::new("tick"),
+                    });
                     if rng.chance(1, 6) {
                         ops.push(Op::new("gap").n(rng.below(1000)));
                     }
@@ -387,7 +405,7 @@ impl Check for C05 {
             if gap > 0 {
                 ops.push(Op::new("gap").n(gap));
             }
-            ops.push(match rng.weighted(&w_op) {
+            let next_op = match rng.weighted(&w_op) {
                 0 => Op::new("tick"),
                 1 => Op::new("set_message"),
                 2 => Op::new("inc").n(rng.below(3)),
@@ -395,8 +413,19 @@ impl Check for C05 {
                 4 => Op::new("println"),
                 5 => Op::new("force_draw"),
                 6 => Op::new("mp_println"),
-                _ => Op::new("reset"),
-            });
+                _ => {
+                    if rng.chance(1, 3) {
+                        // a bar that is finished-and-cleared and put to work again at once (every
+                        // request to a finished bar is a forced one: nothing in between)
+                        ops.push(Op::new("finish_clear"));
+                    }
+                    Op::new("reset")
+                }
+            };
+            ops.push(next_op);
+            if rng.chance(1, 12) {
+                ops.push(Op::new("update"));
+            }
         }
         add_sibling_ops(&mut sc, &mut ops, rng);
         sc.threads = vec![ops];
